@@ -27,16 +27,16 @@ theorem ext_inf {F p eb} (lay : Layout F p eb) :
   rw [lay.infp, this, Nat.add_zero, lay.fmt]; rfl
 
 /-- values below `r^(−m)·2^64` with `r^m ≥ 2^1140` round to zero -/
-theorem tiny_pow {F p eb} (lay : Layout F p eb) {r : Nat} (w m : Nat) (hw : w < 2 ^ 64)
+theorem tiny_pow {F p eb} (lay : Layout F p eb) {r : Nat} (w m : Nat) (hw : w ≤ 2 ^ 64)
     (hm : 2 ^ 1140 ≤ r ^ m) : roundNE F.fmt w (r ^ m) = 0 := by
   have hf := lay.wf
   have hL : L F.fmt ≤ 1074 := by rw [L_eq lay]; exact lay.hL1074
   apply roundNE_tiny hf (by have := Nat.two_pow_pos 1140; omega)
-  have h1 : w * 2 ^ L F.fmt < 2 ^ 64 * 2 ^ L F.fmt := Nat.mul_lt_mul_of_pos_right hw (Nat.two_pow_pos _)
+  have h1 : w * 2 ^ L F.fmt ≤ 2 ^ 64 * 2 ^ L F.fmt := Nat.mul_le_mul_right _ hw
   have h2 : 2 ^ 64 * 2 ^ L F.fmt ≤ 2 ^ 64 * 2 ^ 1074 :=
     Nat.mul_le_mul_left _ (Nat.pow_le_pow_right (by norm_num) hL)
-  have h3 : 2 * ((2 : Nat) ^ 64 * 2 ^ 1074) ≤ 2 ^ 1140 := by
-    rw [← Nat.pow_add, ← Nat.pow_succ']; exact Nat.pow_le_pow_right (by norm_num) (by norm_num)
+  have h3 : 2 * ((2 : Nat) ^ 64 * 2 ^ 1074) < 2 ^ 1140 := by
+    rw [← Nat.pow_add, ← Nat.pow_succ']; exact Nat.pow_lt_pow_right (by norm_num) (by norm_num)
   omega
 
 /-- values of at least `2^1024` round to infinity -/
@@ -101,13 +101,22 @@ theorem powFrac_q (r w : Nat) (e : Int) (hr : 0 < r) :
     refine ⟨?_, Nat.pow_pos hr⟩
     push_cast; rw [zpow_neg, zpow_natCast]; ring
 
-/-- **`bellerophon` is sound for untruncated mantissas.** -/
-theorem bellerophon_untruncated_sound {F : FTy} {p eb : Nat} (lay : Layout F p eb) (hp60 : p ≤ 60)
-    {r : Nat} {P : Powers} (hc : BellFacts r P) (n : Num) (hmany : n.manyDigits = false)
-    (hw : n.mantissa < 2 ^ 64) {fp : ExtendedFloat80}
+/-- the true value of the literal: `x = w·r^e` for an untruncated mantissa, `x ∈ [w, w+1)·r^e` for a
+truncated one (cross-multiplied) -/
+def TrueValue (r : Nat) (n : Num) (num den : Nat) : Prop :=
+  (powFrac r n.exponent n.mantissa).1 * den ≤ num * (powFrac r n.exponent n.mantissa).2 ∧
+  (if n.manyDigits then
+    num * (powFrac r n.exponent (n.mantissa + 1)).2 < (powFrac r n.exponent (n.mantissa + 1)).1 * den
+   else num * (powFrac r n.exponent n.mantissa).2 ≤ (powFrac r n.exponent n.mantissa).1 * den)
+
+/-- **`bellerophon` is sound**: truncated and untruncated mantissas (a truncated one holds at least 44 bits,
+as every `u64_step`-digit mantissa does: then `ctlz + 1 ≤ 20` and the cap of the booked error is not reached). -/
+theorem bellerophon_sound_all {F : FTy} {p eb : Nat} (lay : Layout F p eb) (hp60 : p ≤ 60)
+    {r : Nat} {P : Powers} (hc : BellFacts r P) (n : Num)
+    (hw : n.mantissa < 2 ^ 64) (hmw : n.manyDigits = true → 2 ^ 44 ≤ n.mantissa)
+    (num den : Nat) (hd : 0 < den) (htv : TrueValue r n num den) {fp : ExtendedFloat80}
     (h : bellerophon F P n false = .ok fp) (hv : 0 ≤ fp.exp) :
-    extendedToFloat F fp =
-      roundNE F.fmt (powFrac r n.exponent n.mantissa).1 (powFrac r n.exponent n.mantissa).2 := by
+    extendedToFloat F fp = roundNE F.fmt num den := by
   have hf := lay.wf
   have hr2 := hc.r2
   have hr0 : 0 < r := by omega
@@ -116,6 +125,43 @@ theorem bellerophon_untruncated_sound {F : FTy} {p eb : Nat} (lay : Layout F p e
   have hbias := hc.bias_le
   have hpow_mono : ∀ {a b : Nat}, a ≤ b → r ^ a ≤ r ^ b := fun h => Nat.pow_le_pow_right hr0 h
   have h2r : ∀ m : Nat, 2 ^ m ≤ r ^ m := fun m => Nat.pow_le_pow_left hr2 m
+  obtain ⟨htv1, htv2⟩ := htv
+  have hden0 : ∀ m, 0 < (powFrac r n.exponent m).2 := fun m => (powFrac_q r m n.exponent hr0).2
+  -- squeeze lemmas for the cut-offs
+  have hzero : roundNE F.fmt (powFrac r n.exponent (n.mantissa + 1)).1 (powFrac r n.exponent (n.mantissa + 1)).2 = 0 →
+      roundNE F.fmt num den = 0 := by
+    intro hz
+    have hle : roundNE F.fmt num den ≤
+        roundNE F.fmt (powFrac r n.exponent (n.mantissa + 1)).1 (powFrac r n.exponent (n.mantissa + 1)).2 := by
+      apply roundNE_mono' hf hd (hden0 _)
+      by_cases hm : n.manyDigits = true
+      · rw [if_pos hm] at htv2; exact Nat.le_of_lt htv2
+      · rw [if_neg hm] at htv2
+        -- num/den ≤ w·r^e ≤ (w+1)·r^e
+        have hmono : (powFrac r n.exponent n.mantissa).1 * (powFrac r n.exponent (n.mantissa + 1)).2 ≤
+            (powFrac r n.exponent (n.mantissa + 1)).1 * (powFrac r n.exponent n.mantissa).2 := by
+          unfold powFrac; split
+          · simp only []; exact Nat.mul_le_mul_right _ (Nat.mul_le_mul_right _ (by omega))
+          · simp only []; exact Nat.mul_le_mul_right _ (by omega)
+        have h1 := Nat.mul_le_mul_right (powFrac r n.exponent (n.mantissa + 1)).2 htv2
+        have h2 := Nat.mul_le_mul_right den hmono
+        have hp := hden0 n.mantissa
+        have : num * (powFrac r n.exponent (n.mantissa + 1)).2 * (powFrac r n.exponent n.mantissa).2 ≤
+            (powFrac r n.exponent (n.mantissa + 1)).1 * den * (powFrac r n.exponent n.mantissa).2 := by
+          calc num * (powFrac r n.exponent (n.mantissa + 1)).2 * (powFrac r n.exponent n.mantissa).2
+              = num * (powFrac r n.exponent n.mantissa).2 * (powFrac r n.exponent (n.mantissa + 1)).2 := by ring
+            _ ≤ (powFrac r n.exponent n.mantissa).1 * den * (powFrac r n.exponent (n.mantissa + 1)).2 := h1
+            _ = (powFrac r n.exponent n.mantissa).1 * (powFrac r n.exponent (n.mantissa + 1)).2 * den := by ring
+            _ ≤ (powFrac r n.exponent (n.mantissa + 1)).1 * (powFrac r n.exponent n.mantissa).2 * den := h2
+            _ = (powFrac r n.exponent (n.mantissa + 1)).1 * den * (powFrac r n.exponent n.mantissa).2 := by ring
+        exact Nat.le_of_mul_le_mul_right this hp
+    omega
+  have hinf : roundNE F.fmt (powFrac r n.exponent n.mantissa).1 (powFrac r n.exponent n.mantissa).2 = F.fmt.infBits →
+      roundNE F.fmt num den = F.fmt.infBits := by
+    intro hi
+    have h1 := roundNE_mono' hf (hden0 n.mantissa) hd htv1
+    have h2 := roundNE_le_infBits hf num hd
+    omega
   unfold bellerophon at h
   unfold bellPrepare litExpCut at h
   simp only [] at h
@@ -126,11 +172,22 @@ theorem bellerophon_untruncated_sound {F : FTy} {p eb : Nat} (lay : Layout F p e
     injection h with h; subst h
     rw [ext_zero lay]
     rcases h1 with h0 | he
-    · rw [h0, powFrac_zero]
-    · unfold powFrac
+    · -- w = 0 is untruncated
+      have hm : ¬ n.manyDigits = true := fun hm => by have := hmw hm; omega
+      rw [if_neg hm, h0] at htv2
+      rw [h0] at htv1
+      have : (powFrac r n.exponent 0).1 = 0 := by unfold powFrac; split <;> simp
+      rw [this, Nat.zero_mul] at htv2
+      have hp := hden0 0
+      have hn0 : num = 0 := by
+        rcases Nat.eq_zero_or_pos num with h | h
+        · exact h
+        · have := Nat.mul_pos h hp; omega
+      rw [hn0, roundNE_zero]
+    · symm; apply hzero
+      unfold powFrac
       rw [if_neg (by omega)]
-      symm
-      apply tiny_pow lay _ _ hw
+      apply tiny_pow lay _ _ (by omega)
       have : 1140 ≤ (-n.exponent).toNat := by omega
       exact Nat.le_trans (Nat.pow_le_pow_right (by norm_num) this) (h2r _)
   · rw [if_neg h1] at h
@@ -143,9 +200,9 @@ theorem bellerophon_untruncated_sound {F : FTy} {p eb : Nat} (lay : Layout F p e
       simp only [] at h
       injection h with h; subst h
       rw [ext_inf lay]
+      symm; apply hinf
       unfold powFrac
       rw [if_pos (by omega)]
-      symm
       apply huge_pow lay
       have h1024 : 1024 ≤ n.exponent.toNat := by omega
       have : 2 ^ 1024 ≤ r ^ n.exponent.toNat :=
@@ -155,7 +212,6 @@ theorem bellerophon_untruncated_sound {F : FTy} {p eb : Nat} (lay : Layout F p e
       omega
     · rw [if_neg h2] at h
       have he2 : n.exponent < 0x1000 := by omega
-      -- the biased exponent
       have hE : wrapI32 (wrapI32 n.exponent + P.bias) = n.exponent + P.bias := by
         unfold wrapI32 wrapI
         have h32 : (2 : Int) ^ 32 = 4294967296 := by norm_num
@@ -169,10 +225,10 @@ theorem bellerophon_untruncated_sound {F : FTy} {p eb : Nat} (lay : Layout F p e
         simp only [] at h
         injection h with h; subst h
         rw [ext_zero lay]
+        symm; apply hzero
         unfold powFrac
         rw [if_neg (by omega)]
-        symm
-        apply tiny_pow lay _ _ hw
+        apply tiny_pow lay _ _ (by omega)
         have : P.bias.toNat + 1 ≤ (-n.exponent).toNat := by omega
         exact Nat.le_trans hc.under (hpow_mono this)
       · rw [if_neg h3] at h
@@ -198,9 +254,9 @@ theorem bellerophon_untruncated_sound {F : FTy} {p eb : Nat} (lay : Layout F p e
           have hen : P.large.size * sn - P.bias.toNat ≤ n.exponent.toNat := by omega
           have hbsz := hc.bsz
           rw [hsn'] at hbsz
+          symm; apply hinf
           unfold powFrac
           rw [if_pos (show n.exponent ≥ 0 by omega)]
-          symm
           apply huge_pow lay
           have := hc.over
           rw [hsn'] at this
@@ -214,18 +270,58 @@ theorem bellerophon_untruncated_sound {F : FTy} {p eb : Nat} (lay : Layout F p e
             have := Nat.mod_lt En hsn0; omega
           obtain ⟨hsI, hsIlt, sm, ns, hgs, hns, hsmeq, hsm1, hsm2⟩ := small_facts (hc.small _ hsi)
           obtain ⟨b, ebL, hgl, hb1, hb2, hebl, hebh, hbr1, hbr2⟩ := large_facts (hc.large _ hli)
-          rw [hmany] at h
-          simp only [Bool.false_eq_true, if_false, hsI, hgs, hgl] at h
+          simp only [hsI, hgs, hgl] at h
+          -- the booked truncation error
+          obtain ⟨hlz, hn1, hn2, _⟩ := clz_norm hw0 hw
+          generalize hlzv : clz64 n.mantissa = lz at *
+          generalize he0v : (if n.manyDigits = true then
+              wrap32 (shl64m litErrorScale (if lz + 1 < litManyShiftCap then lz + 1 else litManyShiftCap) % 2 ^ 32)
+            else 0) = errors0 at *
+          have he0 : (n.manyDigits = false ∧ errors0 = 0) ∨
+              (n.manyDigits = true ∧ lz ≤ 19 ∧ errors0 = 16 * 2 ^ lz) := by
+            by_cases hm : n.manyDigits = true
+            · right
+              have h44 := hmw hm
+              have hlz19 : lz ≤ 19 := by
+                apply Classical.byContradiction; intro hcn
+                have h1 : n.mantissa * 2 ^ 20 ≤ n.mantissa * 2 ^ lz :=
+                  Nat.mul_le_mul_left _ (Nat.pow_le_pow_right (by norm_num) (by omega))
+                have h2 : 2 ^ 44 * 2 ^ 20 ≤ n.mantissa * 2 ^ 20 := Nat.mul_le_mul_right _ h44
+                have h3 : (2 : Nat) ^ 44 * 2 ^ 20 = 2 ^ 64 := by norm_num
+                omega
+              refine ⟨hm, hlz19, ?_⟩
+              rw [← he0v, if_pos hm]
+              unfold litManyShiftCap litErrorScale wrap32 shl64m shl64
+              have hmin : (if lz + 1 < 20 then lz + 1 else 20) = lz + 1 := by split <;> omega
+              rw [hmin, Nat.mod_eq_of_lt (show lz + 1 < 64 by omega)]
+              have hpw : 2 ^ (lz + 1) ≤ 2 ^ 20 := Nat.pow_le_pow_right (by norm_num) (by omega)
+              have e1 : 8 * 2 ^ (lz + 1) = 16 * 2 ^ lz := by rw [Nat.pow_succ]; ring
+              have h20 : (2 : Nat) ^ 20 = 1048576 := by norm_num
+              have h32 : (2 : Nat) ^ 32 = 4294967296 := by norm_num
+              have h64 : (2 : Nat) ^ 64 = 18446744073709551616 := by norm_num
+              rw [h20] at hpw; rw [h32, h64, e1] at *
+              rw [Nat.mod_eq_of_lt (by omega), Nat.mod_eq_of_lt (by omega), Nat.mod_eq_of_lt (by omega)]
+            · left
+              have hmf : n.manyDigits = false := by cases hmd : n.manyDigits <;> simp_all
+              exact ⟨hmf, by rw [← he0v, if_neg hm]⟩
+          have he0lt : errors0 < 2 ^ 24 := by
+            have h24 : (2 : Nat) ^ 24 = 16777216 := by norm_num
+            rcases he0 with ⟨_, h⟩ | ⟨_, hl, h⟩
+            · rw [h]; norm_num
+            · have : 2 ^ lz ≤ 2 ^ 19 := Nat.pow_le_pow_right (by norm_num) hl
+              have h19 : (2 : Nat) ^ 19 = 524288 := by norm_num
+              omega
           -- the bracket of the large power
           generalize hK : ((En / sn : Nat) : Int) * P.step - P.bias = K at *
           obtain ⟨hB1, hB2⟩ := large_bracket hr2 K ebL hbr1 hbr2
-          obtain ⟨mant, errors, pw, hmid, hm1, hm2, her4, her36, hpw1, hpw2, hy1, hy2⟩ :=
-            scale_bound F n.mantissa (r ^ (En % sn)) sm ns b ebL ((r : ℚ) ^ K / 2 ^ ebL) hw0 hw
-              (Nat.pow_pos hr0) hsmeq hsm1 hsm2 hns hb1 hb2 hB1 hB2
+          obtain ⟨mant, sh, E, pw, hmid, hm1, hm2, hsh, hEcase, hpw1, hpw2, hy1, hy2⟩ :=
+            scale_bound F n.mantissa (r ^ (En % sn)) sm ns b errors0 ebL ((r : ℚ) ^ K / 2 ^ ebL) hw0 hw
+              (Nat.pow_pos hr0) hsmeq hsm1 hsm2 hns hb1 hb2 hB1 hB2 he0lt
           rw [hmid] at h
           simp only [] at h
-          -- the true value
+          -- the value of the truncated mantissa
           obtain ⟨hxq, hden⟩ := powFrac_q r n.mantissa n.exponent hr0
+          obtain ⟨hxq1, hden1⟩ := powFrac_q r (n.mantissa + 1) n.exponent hr0
           have hrq : (r : ℚ) ≠ 0 := by
             have : (0 : ℚ) < r := by exact_mod_cast hr0
             exact ne_of_gt this
@@ -238,25 +334,147 @@ theorem bellerophon_untruncated_sound {F : FTy} {p eb : Nat} (lay : Layout F p e
             rw [L_eq lay, lay.bias]; have := lay.hL; omega
           have hy : ((n.mantissa * r ^ (En % sn) : Nat) : ℚ) * ((r : ℚ) ^ K / 2 ^ ebL) *
               2 ^ (F.C.exponentBias - pw + ebL) =
-              ((powFrac r n.exponent n.mantissa).1 : ℚ) / (powFrac r n.exponent n.mantissa).2 *
-                2 ^ (((L F.fmt : Nat) : Int) + 1 - pw) := by
-            rw [hxq, hLb, hexp, zpow_add₀ hrq, zpow_natCast,
+              (n.mantissa : ℚ) * (r : ℚ) ^ n.exponent * 2 ^ (((L F.fmt : Nat) : Int) + 1 - pw) := by
+            rw [hLb, hexp, zpow_add₀ hrq, zpow_natCast,
               show F.C.exponentBias - pw + ebL = (F.C.exponentBias - pw) + ebL by ring,
               zpow_add₀ (by norm_num : (2 : ℚ) ≠ 0)]
             have h2 : (2 : ℚ) ^ ebL ≠ 0 := zpow_ne_zero _ (by norm_num)
             push_cast
             field_simp
           rw [hy] at hy1 hy2
-          obtain ⟨hlo, hhi⟩ := bridge (L F.fmt) _ _ mant 4 errors pw hden hy1 hy2
+          -- the true value
+          have hdq : (0 : ℚ) < den := by exact_mod_cast hd
+          have hcpos : (0 : ℚ) < 2 ^ (((L F.fmt : Nat) : Int) + 1 - pw) := zpow_pos (by norm_num) _
+          have hrpos : (0 : ℚ) < (r : ℚ) ^ n.exponent := zpow_pos (by exact_mod_cast hr0) _
+          have hwq : (0 : ℚ) < n.mantissa := by exact_mod_cast Nat.pos_of_ne_zero hw0
+          have hx_lo : (n.mantissa : ℚ) * (r : ℚ) ^ n.exponent ≤ (num : ℚ) / den := by
+            rw [← hxq, div_le_div_iff₀ (by exact_mod_cast hden) hdq]
+            exact_mod_cast htv1
+          have hsh1 : (1 : ℚ) ≤ 2 ^ sh := one_le_pow₀ (by norm_num)
+          have hsh4 : (2 : ℚ) ^ sh ≤ 4 := by
+            have : (2 : ℚ) ^ sh ≤ 2 ^ 2 := pow_le_pow_right₀ (by norm_num) hsh
+            linarith
+          have hx_hi : (num : ℚ) / den ≤ (n.mantissa : ℚ) * (r : ℚ) ^ n.exponent ∨
+              (n.manyDigits = true ∧ (num : ℚ) / den < ((n.mantissa : ℚ) + 1) * (r : ℚ) ^ n.exponent) := by
+            by_cases hm : n.manyDigits = true
+            · right
+              rw [if_pos hm] at htv2
+              refine ⟨hm, ?_⟩
+              have : (((n.mantissa + 1 : Nat) : ℚ)) * (r : ℚ) ^ n.exponent =
+                  ((n.mantissa : ℚ) + 1) * (r : ℚ) ^ n.exponent := by push_cast; ring
+              rw [← this, ← hxq1, div_lt_div_iff₀ hdq (by exact_mod_cast hden1)]
+              exact_mod_cast htv2
+            · left
+              rw [if_neg hm] at htv2
+              rw [← hxq, div_le_div_iff₀ hdq (by exact_mod_cast hden)]
+              exact_mod_cast htv2
+          have hE4 : (4 : ℚ) ≤ E := by
+            have : 4 ≤ E := by
+              rcases hEcase with ⟨_, h | h⟩ | ⟨hpos, h | h⟩ <;> omega
+            exact_mod_cast this
+          have hwlo : (2 : ℚ) ^ 63 ≤ (n.mantissa : ℚ) * 2 ^ lz := by
+            have := (Nat.cast_le (α := ℚ)).mpr hn1
+            push_cast at this; exact this
+          have hmq : (mant : ℚ) < 2 * 2 ^ 63 := by
+            have := (Nat.cast_lt (α := ℚ)).mpr hm2
+            push_cast at this
+            have hP64 : (2 : ℚ) ^ 64 = 2 * 2 ^ 63 := by norm_num
+            linarith
+          have hEm : n.manyDigits = true → lz ≤ 19 ∧ (16 : ℚ) * 2 ^ lz + 5 ≤ E := by
+            intro hm
+            rcases he0 with ⟨hmf, _⟩ | ⟨_, hl19, h16⟩
+            · rw [hmf] at hm; exact absurd hm (by decide)
+            · refine ⟨hl19, ?_⟩
+              rcases hEcase with ⟨h0, _⟩ | ⟨_, h | h⟩
+              · rw [h16] at h0
+                have := Nat.two_pow_pos lz; omega
+              · rw [h, h16]; push_cast; linarith
+              · rw [h, h16]; push_cast; linarith
+          have hbounds : (mant : ℚ) - 4 < (num : ℚ) / den * 2 ^ (((L F.fmt : Nat) : Int) + 1 - pw) ∧
+              (num : ℚ) / den * 2 ^ (((L F.fmt : Nat) : Int) + 1 - pw) < (mant : ℚ) + ((E * 2 ^ sh : Nat) : ℚ) := by
+            push_cast
+            generalize (2 : ℚ) ^ (((L F.fmt : Nat) : Int) + 1 - pw) = c at *
+            generalize (r : ℚ) ^ n.exponent = R at *
+            generalize (2 : ℚ) ^ sh = S at *
+            generalize (num : ℚ) / den = X at *
+            generalize (n.mantissa : ℚ) = W at *
+            generalize (mant : ℚ) = M at *
+            generalize (E : ℚ) = Eq at *
+            have hRc : 0 < R * c := mul_pos hrpos hcpos
+            constructor
+            · have : W * R * c ≤ X * c := mul_le_mul_of_nonneg_right hx_lo (le_of_lt hcpos)
+              linarith only [this, hy1, hsh4]
+            · rcases hx_hi with hle | ⟨hm, hlt⟩
+              · have h1 : X * c ≤ W * R * c := mul_le_mul_of_nonneg_right hle (le_of_lt hcpos)
+                have h2 : 4 * S ≤ Eq * S := mul_le_mul_of_nonneg_right hE4 (by linarith only [hsh1])
+                linarith only [h1, h2, hy2, hsh1]
+              · obtain ⟨hl19, hE⟩ := hEm hm
+                have hT1 : (1 : ℚ) ≤ 2 ^ lz := one_le_pow₀ (by norm_num)
+                have hT19 : (2 : ℚ) ^ lz ≤ 524288 := by
+                  have : (2 : ℚ) ^ lz ≤ 2 ^ 19 := pow_le_pow_right₀ (by norm_num) hl19
+                  have h19 : (2 : ℚ) ^ 19 = 524288 := by norm_num
+                  linarith only [this, h19]
+                have hQ22 : (4194304 : ℚ) ≤ 2 ^ 63 := by norm_num
+                generalize (2 : ℚ) ^ lz = T at *
+                generalize (2 : ℚ) ^ 63 = Q at *
+                have hQpos : 0 < Q := by linarith only [hQ22]
+                have hyp : X * c < (W + 1) * R * c := mul_lt_mul_of_pos_right hlt hcpos
+                generalize hRcv : R * c = Rc at *
+                have hy2' : W * Rc < M + 2 * S := by
+                  have : W * R * c = W * Rc := by rw [← hRcv]; ring
+                  linarith only [this, hy2]
+                have h63 : Rc * Q < (2 * T + 1) * Q := by
+                  have h1 : Rc * Q ≤ Rc * (W * T) := mul_le_mul_of_nonneg_left hwlo (le_of_lt hRc)
+                  have h2 : Rc * (W * T) = (W * Rc) * T := by ring
+                  have h3 : (W * Rc) * T < (M + 2 * S) * T :=
+                    mul_lt_mul_of_pos_right hy2' (by linarith only [hT1])
+                  have h4 : (M + 2 * S) * T ≤ (2 * Q + 8) * T :=
+                    mul_le_mul_of_nonneg_right (by linarith only [hmq, hsh4]) (by linarith only [hT1])
+                  have h5 : (2 * Q + 8) * T = (2 * T) * Q + 8 * T := by ring
+                  have h6 : (2 * T + 1) * Q = (2 * T) * Q + Q := by ring
+                  linarith only [h1, h2, h3, h4, h5, h6, hT19, hQ22]
+                have hRcb : Rc < 2 * T + 1 := lt_of_mul_lt_mul_right h63 (le_of_lt hQpos)
+                have h7 : (W + 1) * R * c = W * Rc + Rc := by rw [← hRcv]; ring
+                have hES : (16 * T + 5) * S ≤ Eq * S := mul_le_mul_of_nonneg_right hE (by linarith only [hsh1])
+                have hTS : 16 * T * 1 ≤ 16 * T * S :=
+                  mul_le_mul_of_nonneg_left hsh1 (by linarith only [hT1])
+                have hexp2 : (16 * T + 5) * S = 16 * T * S + 5 * S := by ring
+                linarith only [hyp, h7, hy2', hRcb, hES, hTS, hexp2, hsh1, hT1]
+          obtain ⟨hlo', hhi'⟩ := hbounds
+          obtain ⟨hlo, hhi⟩ := bridge (L F.fmt) num den mant 4 (E * 2 ^ sh) pw hd hlo' hhi'
           have hBl : F.C.exponentBias ≤ 2000 := by
             rw [lay.bias]; have := lay.hL1074; omega
           have hB0 : 0 ≤ F.C.exponentBias := by rw [lay.bias]; omega
-          exact bellFinish_sound lay mant errors 4 pw _ _ (1 - pw).toNat (pw - 1).toNat hm1 hm2
-            (by have : (36 : Nat) < 2 ^ 32 := by norm_num
-                omega)
+          have hElo : 4 ≤ E * 2 ^ sh := by
+            have h1 := Nat.two_pow_pos sh
+            have : 4 ≤ E := by
+              rcases hEcase with ⟨_, h | h⟩ | ⟨hpos, h | h⟩ <;> omega
+            calc 4 ≤ E := this
+              _ ≤ E * 2 ^ sh := Nat.le_mul_of_pos_right _ h1
+          have hEhi : E * 2 ^ sh < 2 ^ 32 := by
+            have h1 : 2 ^ sh ≤ 2 ^ 2 := Nat.pow_le_pow_right (by norm_num) hsh
+            have h24 : (2 : Nat) ^ 24 = 16777216 := by norm_num
+            have h32 : (2 : Nat) ^ 32 = 4294967296 := by norm_num
+            have : E ≤ errors0 + 9 := by
+              rcases hEcase with ⟨h0, h | h⟩ | ⟨hpos, h | h⟩ <;> omega
+            have : E * 2 ^ sh ≤ E * 2 ^ 2 := Nat.mul_le_mul_left _ h1
+            omega
+          exact bellFinish_sound lay mant (E * 2 ^ sh) 4 pw num den (1 - pw).toNat (pw - 1).toNat hm1 hm2
+            hEhi
             (by have : (2 : Int) ^ 40 = 1099511627776 := by norm_num
-                omega) (by omega) hden (by omega) hlo hhi her4
+                omega) (by omega) hd (by omega) hlo hhi hElo
             (by have : 2 ^ 4 ≤ 2 ^ (64 - p) := Nat.pow_le_pow_right (by norm_num) (by omega)
                 omega) (by omega) h hv
+
+/-- the untruncated case as a corollary -/
+theorem bellerophon_untruncated_sound {F : FTy} {p eb : Nat} (lay : Layout F p eb) (hp60 : p ≤ 60)
+    {r : Nat} {P : Powers} (hc : BellFacts r P) (n : Num) (hmany : n.manyDigits = false)
+    (hw : n.mantissa < 2 ^ 64) {fp : ExtendedFloat80}
+    (h : bellerophon F P n false = .ok fp) (hv : 0 ≤ fp.exp) :
+    extendedToFloat F fp =
+      roundNE F.fmt (powFrac r n.exponent n.mantissa).1 (powFrac r n.exponent n.mantissa).2 := by
+  have hden := (powFrac_q r n.mantissa n.exponent (by have := hc.r2; omega)).2
+  apply bellerophon_sound_all lay hp60 hc n hw (by rw [hmany]; intro h; exact absurd h (by decide))
+    _ _ hden ⟨Nat.le_refl _, by rw [hmany]; exact Nat.le_refl _⟩ h hv
 
 end LexVerif.Proof.Bell
